@@ -48,6 +48,17 @@ fn check_state_protocol(ctx: &Ctx, judgements: &[DocJudgement], out: &mut Vec<Vi
             let p = &ctx.facts.procs[pid as usize];
             let (td, t) = list[k];
             let eff = sc.effective(main, td, t);
+            // a detached test case is still one of the test cases: it, too, starts from what
+            // the earlier ones left (WHICH state it finds is up to the scheduler - it runs next
+            // to its successors - but it has to look)
+            if eff.detached && p.template.is_none() && expect_blob.is_some() && p.cmds.iter().any(|c| c.nonce == t.nonce) {
+                out.push(v(
+                    "C12",
+                    "state-not-carried",
+                    Some(&tj.nonce),
+                    format!("detached test {} ran its command without loading the state the previous test cases left ({:?})", tj.nonce, expect_blob),
+                ));
+            }
             let Some((state_dir, persist)) = &p.template else {
                 continue; // the shell never got as far as its command
             };
